@@ -88,5 +88,30 @@ void f_use()
     { f_machines<f_mp11>::Top m; f_drive(m); (void)f_query_mp11(m); m.stop(); }
     { f_machines<f_mp11_fct>::Top m; f_drive(m); (void)f_query_mp11(m); m.stop(); }
 }
+// a blocking state that lists the library's terminate flag in its PLAIN flag_list, the way the eUML terminate states do
+template <template <class> class Back>
+struct f_plain_blocking
+{
+    struct Top_ : public msm::front::state_machine_def<Top_>
+    {
+        struct Run : public msm::front::state<> {};
+        struct Dead : public msm::front::state<> { typedef mpl::vector<msm::TerminateFlag> flag_list; };
+        typedef Run initial_state;
+        struct transition_table : mpl::vector<
+            msm::front::Row<Run, f_err, Dead, msm::front::none, msm::front::none>,
+            msm::front::Row<Dead, f_go, Run, msm::front::none, msm::front::none>
+        > {};
+        template <class FSM, class Event> void no_transition(Event const&, FSM&, int) {}
+    };
+    typedef typename Back<Top_>::type Top;
+};
+template <class M> void f_drive_plain() { M m; m.start(); m.process_event(f_err()); m.process_event(f_go()); m.stop(); }
+void f_use_plain()
+{
+    f_drive_plain<f_plain_blocking<f_back>::Top>();
+    f_drive_plain<f_plain_blocking<f_back11>::Top>();
+    f_drive_plain<f_plain_blocking<f_mp11>::Top>();
+    f_drive_plain<f_plain_blocking<f_mp11_fct>::Top>();
+}
 }
 int main() { return 0; }
